@@ -165,3 +165,26 @@ Example vx_restart_mid :
   | _, _ => false
   end = true.
 Proof. vm_compute. reflexivity. Qed.
+
+(* ---------- reconnects (ViewResync.v) ---------- *)
+From LV Require Import Channel.Discipline Channel.ResyncExamples Channel.ViewResync.
+
+(* non-vacuity of the hypotheses of xview_refines: ResyncExamples.w3_ops (two reconnects in the
+   middle of the dance, in-place fee merge, lost signatures and a lost revocation) is a good
+   schedule, and the executable refinement check agrees with the theorem at its end *)
+Definition lift (o : xop) : vxop := match o with XOp o => VXOp (VOp o) | XCut a b => VXCut a b end.
+
+Example vx_reconnect_good :
+  exists s0 v0, xinit w1_cfg = Some s0 /\ vinit w1_cfg = Some v0 /\
+    map xerase (map lift w3_ops) = w3_ops /\
+    xgood w1_cfg s0 w3_ops = true /\
+    refinesb (xs (fst (xrun_along w1_cfg s0 v0 (map lift w3_ops))))
+             (snd (xrun_along w1_cfg s0 v0 (map lift w3_ops))) = true.
+Proof.
+  destruct (xinit w1_cfg) as [s0|] eqn:H0; [|vm_compute in H0; discriminate].
+  destruct (vinit w1_cfg) as [v0|] eqn:H1; [|vm_compute in H1; discriminate].
+  exists s0, v0. split; [reflexivity|]. split; [reflexivity|]. split; [reflexivity|].
+  vm_compute in H0. inversion H0; subst s0; clear H0.
+  vm_compute in H1. inversion H1; subst v0; clear H1.
+  vm_compute. split; reflexivity.
+Qed.
